@@ -1079,7 +1079,6 @@ func (x *extractor) unsafeIndex(stmt ast.Stmt, atEOF bool) ast.Node {
 	return bad
 }
 
-
 // errVarName: what the error variable holds at an exit that returns it: the sentinel (or constructor call) assigned
 // last in this action, when there was one.
 func (x *extractor) errVarName(ok bool) string {
